@@ -220,6 +220,8 @@ def independence_bounded(p):
             ("drop0", rows[1:], {0: 1, 1: 2, 2: 3}),
             ("swap", [rows[1], rows[0], rows[3], rows[2]], {0: 1, 1: 0, 2: 3, 3: 2}),
             ("add", [rows[0], (iso(0), 8.2, 6.6, 20.0), *rows[1:]], {0: 0, 2: 1, 3: 2, 4: 3}),
+            # rows not in chronological order in the file (pids follow the release order: by time, then file order)
+            ("unsorted", [rows[2], rows[0], rows[3], rows[1]], {0: 0, 1: 1, 2: 2, 3: 3}),
         ):
             cases += 1
             other = go(tag, rws)
